@@ -608,6 +608,9 @@ pub fn run(prop: u8, tier: &str) -> Report {
         let (n, v) = crate::checks::longlists::uncompact_repeats(tier);
         g.sink.extend(v);
         rep.set("lists_with_repeats_evaluated", json!(n));
+        let (n, v) = crate::checks::longlists::collision_circuits(tier, "C09/after-call");
+        g.sink.extend(v);
+        rep.set("call_pairs_on_one_thread", json!(n));
         let (n, v) = crate::checks::longlists::big_uncompact(tier);
         g.sink.extend(v);
         rep.set("expansions_above_4^8_per_input", json!(n));
